@@ -93,8 +93,8 @@ def facts(src):
     except (OSError, ValueError):
         want_masked = {}
         problems.append('cannot read harness/c20/pins_masked.json')
-    for q, w in sorted(want_masked.items()):
-        got = masked.get(q)
+    for q, w in sorted((q, w) for rel, d in want_masked.items() for q, w in d.items()):
+        got = {q2: h for d in masked.values() for q2, h in d.items()}.get(q)
         summary['masked:' + q] = got
         if got != w:
             problems.append('shape pin %s (translated fragment cut out) changed (%s -> %s): the hand-written model / the C04 '
